@@ -45,6 +45,11 @@ def run(ctx):
     r = ctx.rule("R2k", "load_imm loads its argument on every path (or every clobber of the immediate register invalidates its cache)", 4)
     for kind in AC.ALL:
         ctx.guarded(r, AC.check_load_imm, kind)
+    r = ctx.rule("R2l", "native interval products / quotients skip NaN corners exactly like the interpreter's min / max folds", 2)
+    ctx.guarded(r, AC.check_corner_reduction, "interval")
+    r = ctx.rule("R2m", "a clause that calls out on a conditional path backs up the callee-saved registers before its first instruction", 5)
+    for kind in AC.ALL:
+        ctx.guarded(r, AC.check_callee_save_dominates, kind)
     r = ctx.rule("R2j", "single-instruction builders use their opcode's instruction family, operand order and data width", 41)
     for kind in AC.ALL:
         ctx.guarded(r, AC.check_simple_builders, kind)
